@@ -1124,3 +1124,47 @@ package stun
 //@   pure
 //@   allocates
 //@   ensures bytes_eq(result, strdata(password))
+
+// ---- Equal (C03: "... and Equal agrees") ----
+
+//@ define AttrEq(x, y) = x.Type == y.Type && x.Length == y.Length && bytes_eq(x.Value, y.Value)
+//@ define PairwiseEq(a, b) = len(a) == len(b) && forall(k, 0, len(a), a[k].Type == b[k].Type && a[k].Length == b[k].Length && len(a[k].Value) == len(b[k].Value))
+//@   | && forall(k, 0, len(a), bytes_eq(a[k].Value, b[k].Value))
+
+//@ func RawAttribute.Equal
+//@   safety C03
+//@   props C03
+//@   pure
+//@   ensures AttrEq(a, b) ==> result
+//@   ensures result ==> AttrEq(a, b)
+//@   loop 0
+//@     invariant -1 <= rangeindex && forall(j, 0, rangeindex + 1, b.Value[j] == a.Value[j])
+//@     decreases len(a.Value) - rangeindex
+
+//@ func attrSliceEqual
+//@   safety C03
+//@   props C03
+//@   pure
+//@   ensures PairwiseEq(a, b) ==> result
+//@   loop 0
+//@     invariant -1 <= rangeindex0
+//@     decreases len(a) - rangeindex0
+//@   loop 1
+//@     invariant -1 <= rangeindex1 && rangeindex0 + 1 < len(a) && attr == a[rangeindex0 + 1]
+//@     invariant PairwiseEq(a, b) ==> rangeindex1 < rangeindex0 + 1
+//@     decreases len(b) - rangeindex1
+
+//@ func attrEqual
+//@   safety C03
+//@   props C03
+//@   pure
+//@   ensures PairwiseEq(attrA, attrB) ==> result
+//@   ensures len(attrA) != len(attrB) ==> !result
+
+//@ func (*Message).Equal
+//@   safety C03
+//@   props C03
+//@   pure
+//@   ensures m != nil && msg != nil && m.Type.Method == msg.Type.Method && m.Type.Class == msg.Type.Class && m.Length == msg.Length
+//@        |   && m.TransactionID == msg.TransactionID && PairwiseEq(m.Attributes, msg.Attributes) ==> result
+//@   ensures result && m != nil ==> msg != nil && m.Type.Method == msg.Type.Method && m.Type.Class == msg.Type.Class && m.Length == msg.Length && len(m.Attributes) == len(msg.Attributes)
